@@ -3,11 +3,14 @@ package main
 // Lemmas (pure SMT goals over spec functions), property explanations, extra coverage hooks.
 
 import (
-	"sync"
+	"encoding/json"
 	"fmt"
 	"go/token"
 	"go/types"
+	"os"
+	"path/filepath"
 	"strings"
+	"sync"
 
 	"golang.org/x/tools/go/ssa"
 )
@@ -163,6 +166,26 @@ func (p *Prog) closesOnlyObligation(co ClosesOnly, prop string) *Obligation {
 func propertyExplanation(prop string) string {
 	if s, ok := propertyNotes[prop]; ok {
 		return s
+	}
+	// the per-property statement of what is proved and what is assumed lives next to the manifest generator
+	for _, dir := range []string{os.Getenv("GOVC_VERIF_DIR"), "/verif", "."} {
+		if dir == "" {
+			continue
+		}
+		data, err := os.ReadFile(filepath.Join(dir, "tools", "claimed.json"))
+		if err != nil {
+			continue
+		}
+		var m map[string]struct {
+			Text string `json:"text"`
+			Note string `json:"note"`
+		}
+		if json.Unmarshal(data, &m) == nil {
+			if c, ok := m[prop]; ok && c.Text != "" {
+				return c.Text + " || Not decided / assumed: " + c.Note
+			}
+		}
+		break
 	}
 	return "Contracts on the functions listed under functions_under_contract; every obligation generated from the current go/ssa of /repo and discharged by SMT. See DESIGN.md §3 " + prop + "."
 }
@@ -349,7 +372,6 @@ func freeVarIsConst(fv *ssa.FreeVar, depth int) bool {
 	}
 	return found
 }
-
 
 // ---------------------------------------------------------------------------
 // Frozen fields: `frozen Type.field` declares that the field is only ever assigned through the
